@@ -458,7 +458,7 @@ impl Session {
     ensures
         r is Ok,                                                                            // [C07.inner.total]
         r->Ok_0 == xfer_frame(old(self).outgoing_channel, transfer, payload, old(self).next_outgoing_id),   // [C11.delivery-id.stamp] [C01.session.payload-untouched] a frame carrying a tag is stamped with next-outgoing-id; payload and other fields untouched
-        final(self).next_outgoing_id == add32(old(self).next_outgoing_id, wire_frames(transfer, payload) as int),   // [C07.inner.transfer-id-per-wire-frame] the session's transfer-id accounting counts WIRE frames: a transfer that the transport's encoder cuts into k frames (payload larger than the peer's max-frame-size: FrameEncoder::encode_transfer, unit FRAMEENC) takes k transfer-ids and k units of the peer's incoming window -- the peer counts every transfer frame it receives
+        final(self).next_outgoing_id == add32(old(self).next_outgoing_id, wire_frames(transfer, payload) as int),   // [C07.inner.transfer-id-per-wire-frame] [C01.session.transfer-id-per-wire-frame] the session's transfer-id accounting counts WIRE frames: a transfer that the transport's encoder cuts into k frames (payload larger than the peer's max-frame-size: FrameEncoder::encode_transfer, unit FRAMEENC) takes k transfer-ids and k units of the peer's incoming window -- the peer counts every transfer frame it receives
         final(self).next_outgoing_id == add32(old(self).next_outgoing_id, 1),                              // [C07.inner.next-outgoing-id] advances once per (session-level) frame sent [C11.delivery-id.increasing] so successive stamped deliveries get strictly increasing (serial) ids, never reused
         final(self).remote_incoming_window == old(self).remote_incoming_window - 1,                         // [C07.inner.window] decremented once per frame sent
         final(self).delivery_tag_by_id@ == dt_after(old(self).delivery_tag_by_id@, old(self).next_outgoing_id, input_handle, transfer),  // [C02.register] unsettled delivery registered under (Receiver, id) with its own handle and tag; nothing else touched
@@ -1043,7 +1043,7 @@ impl Session {
     ensures
         r == (SessionFrame { channel: old(self).outgoing_channel.0, body: SessionFrameBody::Detach(detach) }),   // [C13.link.detach-frame]
         final(self).link_name_by_output_handle@ == old(self).link_name_by_output_handle@.remove(detach.handle.0 as usize),   // [C13.link.handle-released-on-detach] the output handle is released exactly when the detach is sent
-        forall|i: int| 0 <= i < final(self).remote_incoming_window_exhausted_buffer@.len() ==> (#[trigger] final(self).remote_incoming_window_exhausted_buffer@[i]).1.handle != detach.handle,   // [C13.link.no-parked-transfer-after-detach] no transfer of this link that the session still holds back (the peer's incoming window was exhausted) may follow the detach onto the wire: once the detach is queued nothing for its handle is left to be written later
+        forall|i: int| 0 <= i < final(self).remote_incoming_window_exhausted_buffer@.len() ==> (#[trigger] final(self).remote_incoming_window_exhausted_buffer@[i]).1.handle != detach.handle,   // [C13.link.no-parked-transfer-after-detach] [C01.session.parked-transfer-not-overtaken-by-detach] no transfer of this link that the session still holds back (the peer's incoming window was exhausted) may follow the detach onto the wire: once the detach is queued nothing for its handle is left to be written later
         final(self).link_by_input_handle == old(self).link_by_input_handle,
         final(self).same_outside_fc_core(old(self)),
 //@@ end
